@@ -83,10 +83,15 @@ func main() {
 			ids = append(ids, id)
 		}
 		sort.Strings(ids)
+		// one load shared by all properties (the rules only read the program)
+		shared, err := Load(LoadOpts{Dir: o.Repo})
+		if err != nil {
+			shared = nil
+		}
 		for _, id := range ids {
 			oo := *o
 			oo.Property = id
-			if c := runProperty(&oo); c > code {
+			if c := runPropertyOn(&oo, shared); c > code {
 				code = c
 			}
 		}
@@ -95,7 +100,9 @@ func main() {
 	os.Exit(runProperty(o))
 }
 
-func runProperty(o *RunOpts) (code int) {
+func runProperty(o *RunOpts) (code int) { return runPropertyOn(o, nil) }
+
+func runPropertyOn(o *RunOpts, shared *Prog) (code int) {
 	t0 := time.Now()
 	fn, ok := properties[o.Property]
 	if !ok {
@@ -114,7 +121,11 @@ func runProperty(o *RunOpts) (code int) {
 		}
 	}()
 	var err error
-	p, err = Load(LoadOpts{Dir: o.Repo})
+	if shared != nil {
+		p = shared
+	} else {
+		p, err = Load(LoadOpts{Dir: o.Repo})
+	}
 	if err != nil {
 		r.Begin("R-LOAD", "tree loads and type-checks", 1)
 		r.Unk("load", "-", "%v", err)
